@@ -32,6 +32,25 @@ CHECKS = {
           'Every (interface shape, method name, call form, argument tuple, dispatcher answer) combination from the stated alphabets and every '
           'ordered tcp endpoint selection / zk combination / foreign scheme is executed and compared with the expected dispatch.',
           'public method = no leading underscore', '3/C20'),
+  'C03': ('B', 'model_checking',
+          'explicit-state BFS by history replay over the real heap/aperture balancers with stub channels; every internal random outcome is a transition',
+          'Every history of dispatch/complete/down/up/join/leave/clock operations up to the stated depth (6 members depth 9 for the '
+          'dispatch/complete core, smaller member counts for the full alphabet; thorough: 7 members depth 11) is executed on the real '
+          'balancer; at every dispatch the chosen member is compared with the reference model (open and least outstanding among the '
+          'members in use).',
+          'stub channels; channel state Open/Closed; bounded members/outstanding/depth', '3/C03'),
+  'C04': ('B', 'model_checking',
+          'explicit-state BFS by history replay over the real balancers; per-node load compared with a reference count in every state',
+          'In every reachable state of the bounded history space the load attributed to every node ever created equals the number of '
+          'dispatched-but-uncompleted requests of its channel, and members removed from the server set are closed at once (idle or marked '
+          'down) or exactly when they drain, and never receive a request afterwards.',
+          'reads node.load (anchored state); stub channels', '3/C04'),
+  'C05': ('B', 'model_checking',
+          'explicit-state BFS by history replay over join/leave notification histories incl. notifications queued during the initial load',
+          'All histories of join/leave notifications (duplicates, unknown leaves, re-joins) interleaved with traffic, and all placements of '
+          'up to 4 notifications before the initial GetServers() returns, on both balancers; in every state eligible endpoints '
+          '(active + idle) and known servers equal the reference server set, plus a behavioural dispatch probe for the heap balancer.',
+          'scripted server-set provider delivering notifications serially', '3/C05'),
 }
 
 NOT_BUILT = 'check not built yet in this session (planned, see DESIGN.md section 3)'
